@@ -805,6 +805,35 @@ func (in *interp) stmt(a *act, n *Node, d int, ls []string) Completion {
 		}
 		return normalV(Value{K: VObj})
 
+	case GoForOf: // the host API documented as "a Go equivalent of for-of loop": 14.7.5.7 with the Go callback as body
+		it := in.newIter(a, n)
+		for j := 1; ; j++ {
+			_, done, c := iterStep(it)
+			if c.T != Normal {
+				return c
+			}
+			if done {
+				return normalV(Undef)
+			}
+			in.emit(Ev("GS", a.id, id, j))
+			if n.Op != 0 && j == n.At {
+				in.emit(Ev("GX", a.id, id, j))
+				var status Completion
+				switch n.Op {
+				case 1: // the callback returns false: like break
+					status = normalEmpty()
+				case 3:
+					status = throwErr("TypeError")
+				default:
+					status = throwV(Num(63000 + id))
+				}
+				if r := iterClose(it, status); r.T != Normal {
+					return r
+				}
+				return normalV(Undef)
+			}
+		}
+
 	case Yield: // 15.5.5 yield AssignmentExpression; 27.5.3.7 GeneratorYield
 		in.emit(Ev("Y", a.id, id))
 		rc := in.yield(a, Num(20000+id))
